@@ -106,6 +106,27 @@ def run(ctx):
                 ctx.fail('Pauli.__rmul__', 'implementation raised %r' % e, dict(P=op, c=str(c)))
         if impl.ops_of(-P) != O.oneg(op):
             ctx.fail('Pauli.__neg__', 'negation gives %s' % (impl.ops_of(-P),), dict(P=op))
+    # histories: an operator built from a description is changed in place; describing the same operator again must not notice
+    for _ in range(ctx.budget(80, 800)):
+        n = rng.choice([1, 2, 3, 5])
+        op = G.rand_op(rng, n)
+        txt = rng.choice(PRE[op[1]]) + ''.join(op[0])
+        codes = [CODE[c] for c in op[0]] + [PCODE[op[1]]]
+        try:
+            first = [pc.pauli(txt), pc.pauli(codes), pc.pauli(tuple(codes)), pc.paulis(txt, txt)[0], pc.paulis([txt])[0]]
+            for o in first:
+                Gop = G.rand_herm(rng, n, nonid=True)
+                o.rotate_by(impl.pauli(Gop))
+                if rng.random() < 0.5:
+                    o.transform_by(impl.cmap(G.rand_map_ops(rng, n)))
+            again = dict(string=pc.pauli(txt), codes=pc.pauli(codes), tuple=pc.pauli(tuple(codes)), paulis=pc.paulis(txt, txt)[1], reparsed=pc.pauli(repr(impl.pauli(op))))
+            for fmt, o in again.items():
+                if impl.ops_of(o) != op:
+                    ctx.fail('pauli()', 'after an operator built from the same description was changed in place, the %s description parses to %s instead of %s' % (fmt, impl.ops_of(o), op),
+                             dict(desc=txt, fmt=fmt))
+        except Exception as e:
+            ctx.fail('pauli()', 'implementation raised %r in a parse / mutate / parse history' % e, dict(desc=txt))
+        ctx.case(('history', op), True, sample=dict(op='parse, mutate in place, parse again', P=op))
     # lists and index expressions
     for _ in range(ctx.budget(80, 800)):
         n = rng.choice([1, 2, 3, 5, 8])
